@@ -12,28 +12,55 @@ open Cvss Cvss.Model
 /-- the digits of a macrovector key of the generated table -/
 def keyDigits (k : Str) : List Nat := k.map (fun c => c.toNat - 48)
 
-/-- pinning: `CVSS_LOOKUP_GLOBAL` is the specification's table, row by row -/
-theorem lookup_pinned :
-    Gen.V4.lookupTable.map (fun (k, v) => (keyDigits k, v)) =
-      Spec.V4.tableTenths.map (fun ((a, b, c, d, e, f), t) => ([a, b, c, d, e, f], (t : Rat) / 10)) := by
-  decide +kernel
+/-! ### pinning the generated tables to the specification
 
-/-- pinning: `MAX_SEVERITY` is the specification's depth table -/
+  The tables under `Cvss/Gen` list their entries in the order of the Python dict literals.  That order
+  is unobservable (every access is a look-up by key), so the pins do not depend on it: each one says
+  that no key occurs twice and that the entries are the specification's entries UP TO THEIR ORDER
+  (`List.Perm`).  By `Cvss.lookup_perm` this gives equal look-up results for every key.  (The order of
+  the highest-severity vectors INSIDE one entry of `MAX_COMPOSED` is part of the entry and is pinned
+  as it is.) -/
+
+/-- pinning: `CVSS_LOOKUP_GLOBAL` is the specification's table: no macrovector occurs twice, and the
+    rows are the specification's rows up to the order of the entries -/
+theorem lookup_pinned :
+    (keys (Gen.V4.lookupTable.map (fun (k, v) => (keyDigits k, v)))).Nodup ∧
+    (Gen.V4.lookupTable.map (fun (k, v) => (keyDigits k, v))).Perm
+      (Spec.V4.tableTenths.map (fun ((a, b, c, d, e, f), t) => ([a, b, c, d, e, f], (t : Rat) / 10))) :=
+  Lemmas.V4Table.table_pinned
+
+/-- … hence the library's table and the specification's answer every look-up alike -/
+theorem lookup_pinned_pointwise (d : List Nat) :
+    lookup d (Gen.V4.lookupTable.map (fun (k, v) => (keyDigits k, v))) =
+      lookup d (Spec.V4.tableTenths.map (fun ((a, b, c, d, e, f), t) => ([a, b, c, d, e, f], (t : Rat) / 10))) :=
+  lookup_perm _ _ lookup_pinned.2 lookup_pinned.1 d
+
+/-- pinning: `MAX_SEVERITY` is the specification's depth table (distinct keys, same entries up to order) -/
 theorem maxSeverity_pinned :
-    Gen.V4.maxSeverityEq1 = [0, 1, 2].map (fun i => (i, Spec.V4.depth1 i)) ∧
-    Gen.V4.maxSeverityEq2 = [0, 1].map (fun i => (i, Spec.V4.depth2 i)) ∧
-    Gen.V4.maxSeverityEq36 = [(0, 0), (0, 1), (1, 0), (1, 1), (2, 1)].map (fun p => (p, Spec.V4.depth36 p.1 p.2)) ∧
-    Gen.V4.maxSeverityEq4 = [0, 1, 2].map (fun i => (i, Spec.V4.depth4 i)) := by
+    ((keys Gen.V4.maxSeverityEq1).Nodup ∧
+      Gen.V4.maxSeverityEq1.Perm ([0, 1, 2].map (fun i => (i, Spec.V4.depth1 i)))) ∧
+    ((keys Gen.V4.maxSeverityEq2).Nodup ∧
+      Gen.V4.maxSeverityEq2.Perm ([0, 1].map (fun i => (i, Spec.V4.depth2 i)))) ∧
+    ((keys Gen.V4.maxSeverityEq36).Nodup ∧
+      Gen.V4.maxSeverityEq36.Perm
+        ([(0, 0), (0, 1), (1, 0), (1, 1), (2, 1)].map (fun p => (p, Spec.V4.depth36 p.1 p.2)))) ∧
+    ((keys Gen.V4.maxSeverityEq4).Nodup ∧
+      Gen.V4.maxSeverityEq4.Perm ([0, 1, 2].map (fun i => (i, Spec.V4.depth4 i)))) := by
   decide +kernel
 
 /-- pinning: `MAX_COMPOSED`, as the library reads it through `extract_value_metric`, is the
-    specification's list of highest-severity vectors -/
+    specification's list of highest-severity vectors (distinct keys, same entries up to order; the
+    list of vectors of one entry is pinned in its order) -/
 theorem maxComposed_pinned :
-    Gen.V4.maxEq1 = [0, 1, 2].map (fun i => (natToStr i, Spec.V4.max1 i)) ∧
-    Gen.V4.maxEq2 = [0, 1].map (fun i => (natToStr i, Spec.V4.max2 i)) ∧
-    Gen.V4.maxEq36 = [(0, 0), (0, 1), (1, 0), (1, 1), (2, 1)].map
-      (fun p => (natToStr p.1 ++ natToStr p.2, Spec.V4.max36 p.1 p.2)) ∧
-    Gen.V4.maxEq4 = [0, 1, 2].map (fun i => (natToStr i, Spec.V4.max4 i)) ∧
+    ((keys Gen.V4.maxEq1).Nodup ∧
+      Gen.V4.maxEq1.Perm ([0, 1, 2].map (fun i => (natToStr i, Spec.V4.max1 i)))) ∧
+    ((keys Gen.V4.maxEq2).Nodup ∧
+      Gen.V4.maxEq2.Perm ([0, 1].map (fun i => (natToStr i, Spec.V4.max2 i)))) ∧
+    ((keys Gen.V4.maxEq36).Nodup ∧
+      Gen.V4.maxEq36.Perm ([(0, 0), (0, 1), (1, 0), (1, 1), (2, 1)].map
+        (fun p => (natToStr p.1 ++ natToStr p.2, Spec.V4.max36 p.1 p.2)))) ∧
+    ((keys Gen.V4.maxEq4).Nodup ∧
+      Gen.V4.maxEq4.Perm ([0, 1, 2].map (fun i => (natToStr i, Spec.V4.max4 i)))) ∧
     Gen.V4.maxComposedExtractionMismatches = 0 := by
   refine ⟨?_, ?_, ?_, ?_, ?_⟩ <;> decide +kernel
 
